@@ -30,6 +30,8 @@ type mutant struct {
 
 func main() {
 	repo := flag.String("repo", "/repo", "")
+	set := flag.Int("set", 1, "operator set: 1 = relational/logical/negation/deletion/0-1/booleans, 2 = bit and shift operators, off-by-one literals, len()-1, compound assignment, dropped negation, swapped arguments, break for continue")
+	prefix := flag.String("prefix", "M", "id prefix")
 	flag.Parse()
 	var files []string
 	for _, d := range []string{"", "commit"} {
@@ -71,6 +73,78 @@ func main() {
 			name := fd.Name.Name
 			if fd.Recv != nil && len(fd.Recv.List) > 0 {
 				name = types(fd.Recv.List[0].Type) + "." + name
+			}
+			if *set == 2 {
+				ast.Inspect(fd.Body, func(n ast.Node) bool {
+					switch x := n.(type) {
+					case *ast.BinaryExpr:
+						alt := ""
+						switch x.Op {
+						case token.SHL:
+							alt = ">>"
+						case token.SHR:
+							alt = "<<"
+						case token.AND:
+							alt = "|"
+						case token.OR:
+							alt = "&"
+						case token.AND_NOT:
+							alt = "&"
+						case token.MUL:
+							alt = "+"
+						case token.QUO:
+							alt = "*"
+						case token.REM:
+							alt = "/"
+						}
+						if alt != "" {
+							add(name, "binop "+x.Op.String()+"→"+alt, x.OpPos, x.OpPos+token.Pos(len(x.Op.String())), alt)
+						}
+					case *ast.BasicLit:
+						if x.Kind == token.INT && x.Value != "0" && x.Value != "1" && len(x.Value) < 6 && !strings.HasPrefix(x.Value, "0") {
+							var v int
+							fmt.Sscanf(x.Value, "%d", &v)
+							add(name, "const n→n+1", x.Pos(), x.End(), fmt.Sprint(v+1))
+							add(name, "const n→n-1", x.Pos(), x.End(), fmt.Sprint(v-1))
+						}
+					case *ast.CallExpr:
+						if id, ok := x.Fun.(*ast.Ident); ok && id.Name == "len" && len(x.Args) == 1 {
+							a, b := off(x.Pos()), off(x.End())
+							add(name, "len→len-1", x.Pos(), x.End(), "("+string(src[a:b])+"-1)")
+						} else if len(x.Args) >= 2 && !x.Ellipsis.IsValid() {
+							// swap the first two arguments that are spelled differently
+							a0, a1 := x.Args[0], x.Args[1]
+							s0, s1 := string(src[off(a0.Pos()):off(a0.End())]), string(src[off(a1.Pos()):off(a1.End())])
+							if s0 != s1 {
+								add(name, "swap-args", a0.Pos(), a1.End(), s1+string(src[off(a0.End()):off(a1.Pos())])+s0)
+							}
+						}
+					case *ast.AssignStmt:
+						switch x.Tok {
+						case token.ADD_ASSIGN, token.SUB_ASSIGN, token.OR_ASSIGN, token.AND_ASSIGN, token.AND_NOT_ASSIGN:
+							add(name, "compound→plain "+x.Tok.String(), x.TokPos, x.TokPos+token.Pos(len(x.Tok.String())), "=")
+						}
+					case *ast.UnaryExpr:
+						if x.Op == token.NOT {
+							add(name, "drop-not", x.OpPos, x.OpPos+1, "")
+						}
+					case *ast.BranchStmt:
+						if x.Label == nil && x.Tok == token.BREAK {
+							add(name, "break→continue", x.Pos(), x.End(), "continue")
+						}
+					case *ast.IncDecStmt:
+						if x.Tok == token.INC {
+							add(name, "inc→dec", x.TokPos, x.TokPos+2, "--")
+						}
+					case *ast.ReturnStmt:
+						// an early return inside a nested block, without results: removed
+						if len(x.Results) == 0 {
+							add(name, "delete-return", x.Pos(), x.End(), "_ = 0")
+						}
+					}
+					return true
+				})
+				continue
 			}
 			ast.Inspect(fd.Body, func(n ast.Node) bool {
 				switch x := n.(type) {
@@ -170,7 +244,7 @@ func main() {
 		}
 	}
 	for i := range out {
-		out[i].ID = fmt.Sprintf("M%04d", i)
+		out[i].ID = fmt.Sprintf("%s%04d", *prefix, i)
 	}
 	enc := json.NewEncoder(os.Stdout)
 	for _, m := range out {
